@@ -133,7 +133,8 @@ def nhFromBytes (b : Bytes) : Option Nh :=
     if allOf (b.drop 16) 0 then some (.v6 (b.take 16)) else some (.v6ll (b.take 16) (b.drop 16))
   else none
 
-def segTypesOk (segs : List Seg) : Bool := segs.all (fun s => 1 ≤ s.1 ∧ s.1 ≤ 4)
+/-- segment types 1..4, no segment of length zero (RFC 7606 §7.2) -/
+def segTypesOk (segs : List Seg) : Bool := segs.all (fun s => 1 ≤ s.1 ∧ s.1 ≤ 4 ∧ s.2.length ≠ 0)
 
 /-- AIGP TLV walk of `Attribute::decode` -/
 def aigpOk (b : Bytes) : Bool :=
@@ -305,7 +306,8 @@ def countHops (segs : List Seg) : Nat :=
 def takePrefix : List Seg → Nat → List Seg
   | [], _ => []
   | s :: rest, n =>
-      if n = 0 then []
+      -- RFC 6793 §4.2.3: a confederation segment that leads the path or follows a prepended segment is kept
+      if n = 0 ∧ ¬ (s.1 = 3 ∨ s.1 = 4) then []
       else if s.1 = 2 then
         let take := min s.2.length n
         (2, s.2.take take) :: takePrefix rest (n - take)
@@ -343,7 +345,7 @@ def reconcileAs4 (attrs : List Attr) : List Attr :=
     | some a4, some agg =>
         (match agg.data.binary?, a4.data.binary? with
          | some ab, some b4 =>
-            if beNat (ab.take 4) = TRANS_ASN then (replaceFirst 7 ⟨7, 192, .bin b4⟩ attrs, false)
+            if beNat (ab.take 4) = TRANS_ASN then (replaceFirst 7 ⟨7, agg.flags, .bin b4⟩ attrs, false)
             else (attrs, true)
          | _, _ => (attrs, false))
     | _, _ => (attrs, false)
@@ -351,7 +353,7 @@ def reconcileAs4 (attrs : List Attr) : List Attr :=
   else match as4Path, findFirst 2 attrs with
     | some a4, some ap =>
         (match ap.data.binary?, a4.data.binary? with
-         | some pb, some b4 => replaceFirst 2 ⟨2, 64, .bin (asPathReconcile pb b4)⟩ attrs
+         | some pb, some b4 => replaceFirst 2 ⟨2, ap.flags, .bin (asPathReconcile pb b4)⟩ attrs
          | _, _ => attrs)
     | _, _ => attrs
 
@@ -520,6 +522,8 @@ def parseUpdate (od : OpaqueDec) (c : Codec) (buf : Bytes) : DRes :=
                         if nhl = 0 then (if isFlowspec f then some none else none)
                         else if nhl = 4 ∨ nhl = 16 ∨ nhl = 32 then some (nhFromBytes nhb)
                         else if nhl = 12 ∨ nhl = 24 then some (nhFromBytes (nhb.drop 8))
+                        -- VPN-IPv6 global + link-local, an RD before each (RFC 4659 §3.2.1.2)
+                        else if nhl = 48 then some (nhFromBytes ((nhb.drop 8).take 16 ++ nhb.drop 32))
                         else none
                       match nhR with
                       | none => .inl (.err 3 9)
